@@ -1,10 +1,12 @@
 package props
 
 import (
+	"bytes"
 	"time"
 
 	"exoverif/sim"
 
+	avstypes "github.com/ExocoreNetwork/exocore/x/avs/types"
 	sdk "github.com/cosmos/cosmos-sdk/types"
 	"math/big"
 	"sort"
@@ -459,6 +461,42 @@ func (m *Machine) Draw(t *rapid.T, g *GenOpts) Action {
 			a.Power = int64(rapid.IntRange(1, 600).Draw(t, "powr"))
 		}
 		a.Factor = rapid.SampledFrom([]string{"0", "0.000000000000000001", "0.01", "0.05", "0.5", "1", "0.333333333333333333"}).Draw(t, "factor")
+		if v != nil && len(v.Undelegations) > 0 && pct(t, 60, "aimed-slash?") {
+			// aim at an operator with pending undelegations and put the infraction height between
+			// the start heights of its records, so that some are at risk and some are not
+			byOp := map[string][]uint64{}
+			for _, u := range v.Undelegations {
+				byOp[u.Operator] = append(byOp[u.Operator], u.Start)
+			}
+			ops := sortedKeys(byOp)
+			best := ops[uniform(t, len(ops), "aim-op")]
+			for _, o := range ops {
+				if len(byOp[o]) > len(byOp[best]) && pct(t, 70, "aim-most?") {
+					best = o
+				}
+			}
+			if acc, err := sdk.AccAddressFromBech32(best); err == nil {
+				if found, key, err := m.C.App.OperatorKeeper.GetOperatorConsKeyForChainID(m.C.Ctx(), acc, avstypes.ChainIDWithoutRevision(m.W.Cfg.ChainID)); err == nil && found {
+					for i, k := range m.Keys {
+						if bytes.Equal(k.ConsAddr(), key.ToConsAddr()) {
+							starts := append([]uint64{}, byOp[best]...)
+							sort.Slice(starts, func(i, j int) bool { return starts[i] < starts[j] })
+							h := starts[uniform(t, len(starts), "aim-start")]
+							if pct(t, 25, "aim-after?") {
+								h++
+							}
+							if back := m.C.Height + 1 - int64(h); back >= 0 {
+								a.Key, a.Back = i, back
+								if a.Factor == "0" {
+									a.Factor = "0.05"
+								}
+							}
+							break
+						}
+					}
+				}
+			}
+		}
 	case "evidence":
 		a.Dt = rapid.IntRange(1, maxDt).Draw(t, "dt")
 		a.Key = uniform(t, len(m.Keys), "key")
